@@ -273,9 +273,11 @@ func timeoutGroup(thorough bool) *Group {
 	et := func(coarse int, lit string, d time.Duration) Alt {
 		return Alt{Class: "valid", Coarse: coarse, Set: true, Env: lit, HasTimeout: true, Timeout: d}
 	}
-	g.Opt = []Alt{absent, ot(1, 5*time.Second), ot(-1, 17*time.Second)}
+	// 10 s is the default: a source that provides exactly the default still provides it (a lower
+	// source must not win because the value "looks unset")
+	g.Opt = []Alt{absent, ot(1, 5*time.Second), ot(-1, 17*time.Second), ot(-1, defaultTimeout)}
 	// environment timeouts are integers in milliseconds
-	g.Spec = []Alt{absent, et(1, "29000", 29*time.Second), et(-1, "41000", 41*time.Second), envBad("invalid", 2, "abc"), envBad("empty", -1, "")}
+	g.Spec = []Alt{absent, et(1, "29000", 29*time.Second), et(-1, "41000", 41*time.Second), et(-1, "10000", defaultTimeout), envBad("invalid", 2, "abc"), envBad("empty", -1, "")}
 	g.Gen = []Alt{absent, et(1, "53000", 53*time.Second), et(-1, "67000", 67*time.Second), envBad("invalid", 2, "abc"), envBad("empty", -1, "")}
 	// numeric text: the variables hold decimal millisecond counts; spellings that only a base-0 /
 	// Go-literal parser accepts are unparsable (a zero-padded decimal is left out: the SDK alphabets
